@@ -8,12 +8,13 @@ Decided from the source against ref/pairwise_ref.py:
               path apply the identical map, each guarded by `cell is not None`;
  NF-DIST      Euclidean: row norm of the wrapped displacement reshaped (nX, nY) in
               construction order, squared iff squared=True; without a cell the
-              sklearn distance with squared forwarded; Mahalanobis: d^T S d per
+              sklearn distance with squared forwarded and, for Y=None, ONE array
+              object for both operands (exact zero self-distances); Mahalanobis: d^T S d per
               precision of the stack, square root iff not squared;
  Shape        cell (D,) broadcasts along the last axis; results (nX, nY) resp.
               (C, nX, nY); a 2-D precision is promoted to a stack of one;
- R-DIMCHECK   both public functions call the dimension check, which raises on a
-              mismatch, before anything else.
+ R-DIMCHECK   both public functions raise on any mismatch between the extent of the
+              cell and the dimension of the points before anything else.
 Not decided: metric axioms numerically (triangle inequality of the minimum-image
 distance for rectangular cells is a theorem, cited not checked).
 """
